@@ -3,8 +3,15 @@
 // Harness component "writeabort" (property C13, tie A of DESIGN.md §3.4).
 //
 // The real UDPMuxDefault runs over a scripted shared socket (vWaSock): WriteTo blocks until the
-// socket's write deadline is set to "now" or the script releases it, SetWriteDeadline(now) fails at
-// scripted calls.  Several writer goroutines (background or cancellable contexts, directly or through
+// socket's write deadline is set to "now" or the script releases it (successfully or with an error),
+// or fails at once with an error that is not the deadline's; SetWriteDeadline(now) fails at scripted
+// calls.  The socket comes in two kinds: a plain net.PacketConn (the mux then only has the net.Addr
+// write path writeTo/writeToContext) and an AddrPort-capable one (vWaSockAP implements
+// AddrPortReaderWriter, which is what addr.go asAddrPortReaderWriter accepts besides the concrete
+// *net.UDPConn; GetConn then hands out *sharedAddrPortConn handles and WriteToAddrPort goes
+// handle -> udpMuxedConn.WriteToAddrPort -> UDPMuxDefault.writeToUDPAddrPort -> socket.WriteToAddrPort).
+// Both socket methods run the SAME script, and one run mixes writes of both paths.
+// Several writer goroutines (background or cancellable contexts, directly or through
 // handles of two different ufrags) and aborters run concurrently.  Only EXTERNAL events are recorded
 // (call/return of write and abort, every WriteTo/SetWriteDeadline seen by the socket with its argument
 // class, context cancellations, and at quiescence the in-package writeState word and the socket's
@@ -19,6 +26,7 @@ import (
 	"fmt"
 	"math/bits"
 	"net"
+	"net/netip"
 	"os"
 	"runtime"
 	"strings"
@@ -42,6 +50,10 @@ func (r *vWaRec) add(s string) {
 }
 
 var errVWaInjected = errors.New("injected SetWriteDeadline failure")
+
+// errVWaWrite: a socket write error that has nothing to do with the deadline (ENETUNREACH, an IPv6
+// destination on an IPv4 socket, ...).
+var errVWaWrite = errors.New("injected socket write failure")
 
 type vWaSock struct {
 	rec       *vWaRec
@@ -82,12 +94,25 @@ func (s *vWaSock) LocalAddr() net.Addr               { return &net.UDPAddr{IP: n
 func (s *vWaSock) SetDeadline(t time.Time) error     { return nil }
 func (s *vWaSock) SetReadDeadline(t time.Time) error { return nil }
 
-// payload: b[0] = writer id, b[1] = mode (0 immediate, 1 blocks until released or deadline, 2 scripted)
-func (s *vWaSock) WriteTo(b []byte, _ net.Addr) (int, error) {
+// payload: b[0] = writer id, b[1] = mode (0 immediate, 1 blocks until released or deadline, 2 scripted,
+// 3 fails at once with an error that is not the deadline's)
+func (s *vWaSock) WriteTo(b []byte, _ net.Addr) (int, error) { return s.write(b, "sc") }
+
+// vWaSockAP is the AddrPort-capable kind of the scripted socket: same script, entered through
+// WriteToAddrPort (event `sa:<id>`).
+type vWaSockAP struct{ *vWaSock }
+
+func (s vWaSockAP) WriteToAddrPort(b []byte, _ netip.AddrPort) (int, error) { return s.write(b, "sa") }
+func (s vWaSockAP) ReadFromAddrPort(b []byte) (int, netip.AddrPort, error) {
+	<-s.closedCh
+	return 0, netip.AddrPort{}, net.ErrClosed
+}
+
+func (s *vWaSock) write(b []byte, entry string) (int, error) {
 	id, mode := int(b[0]), b[1]
 	r := s.rec
 	r.mu.Lock()
-	r.ev = append(r.ev, fmt.Sprintf("sc:%d", id))
+	r.ev = append(r.ev, fmt.Sprintf("%s:%d", entry, id))
 	if s.armed {
 		r.ev = append(r.ev, fmt.Sprintf("sr:%d:to", id))
 		r.mu.Unlock()
@@ -117,6 +142,10 @@ func (s *vWaSock) WriteTo(b []byte, _ net.Addr) (int, error) {
 		r.ev = append(r.ev, fmt.Sprintf("sr:%d:ok", id))
 		r.mu.Unlock()
 		return len(b), nil
+	case 3:
+		r.ev = append(r.ev, fmt.Sprintf("sr:%d:err", id))
+		r.mu.Unlock()
+		return 0, errVWaWrite
 	default:
 		r.ev = append(r.ev, fmt.Sprintf("sr:%d:ok", id))
 		r.mu.Unlock()
@@ -160,7 +189,7 @@ func (s *vWaSock) SetWriteDeadline(t time.Time) error {
 			fn(k, true)
 		}
 		if relID >= 0 {
-			s.release(relID)
+			s.release(relID, false)
 		}
 		d.wait()
 		return errVWaInjected
@@ -194,8 +223,9 @@ func (s *vWaSock) SetWriteDeadline(t time.Time) error {
 	return nil
 }
 
-// release lets a blocked WriteTo complete successfully.
-func (s *vWaSock) release(id int) bool {
+// release lets a blocked socket write complete: successfully, or (fail) with an error that is not the
+// deadline's.
+func (s *vWaSock) release(id int, fail bool) bool {
 	r := s.rec
 	r.mu.Lock()
 	defer r.mu.Unlock()
@@ -203,8 +233,13 @@ func (s *vWaSock) release(id int) bool {
 	if !ok {
 		return false
 	}
-	r.ev = append(r.ev, fmt.Sprintf("sr:%d:ok", id))
-	ch <- nil
+	if fail {
+		r.ev = append(r.ev, fmt.Sprintf("sr:%d:err", id))
+		ch <- errVWaWrite
+	} else {
+		r.ev = append(r.ev, fmt.Sprintf("sr:%d:ok", id))
+		ch <- nil
+	}
 	delete(s.pending, id)
 	return true
 }
@@ -218,7 +253,7 @@ func (s *vWaSock) releaseAll() {
 	}
 	r.mu.Unlock()
 	for _, id := range ids {
-		s.release(id)
+		s.release(id, false)
 	}
 }
 
@@ -241,13 +276,24 @@ type vWaRun struct {
 	handles []net.PacketConn // handles of two different users (ufrags) of the shared mux
 	wg      sync.WaitGroup
 	base    int
+	ap      bool // the shared socket is AddrPort-capable (mux.addrPortConn != nil)
+	dstAP   netip.AddrPort
 }
+
+// write paths
+const (
+	vWaPathAddr = 0 // net.Addr: handle.WriteTo -> udpMuxedConn.WriteTo -> writeTo -> writeToContext (or writeToContext directly)
+	vWaPathAP   = 1 // netip.AddrPort: handle.WriteToAddrPort -> udpMuxedConn.WriteToAddrPort -> writeToUDPAddrPort (or that directly)
+)
 
 // vWaFloor: goroutines alive before the first run; every run starts only after the goroutines of the
 // previous run (connWorker, close watchers) are gone, so that the per-run baseline is exact.
 var vWaFloor = -1
 
-func newVWaRun(fail map[int]bool) *vWaRun {
+func newVWaRun(fail map[int]bool) *vWaRun { return newVWaRunKind(fail, false) }
+
+// newVWaRunKind: ap = the scripted socket also implements AddrPortReaderWriter.
+func newVWaRunKind(fail map[int]bool, ap bool) *vWaRun {
 	if vWaFloor < 0 {
 		vWaFloor = runtime.NumGoroutine()
 	}
@@ -257,8 +303,16 @@ func newVWaRun(fail map[int]bool) *vWaRun {
 	}
 	rec := &vWaRec{}
 	sock := newVWaSock(rec, fail)
-	mux := NewUDPMuxDefault(UDPMuxParams{UDPConn: sock})
-	r := &vWaRun{rec: rec, sock: sock, mux: mux, dst: &net.UDPAddr{IP: net.IPv4(10, 0, 0, 2), Port: 6000}}
+	var conn net.PacketConn = sock
+	if ap {
+		conn = vWaSockAP{sock}
+	}
+	mux := NewUDPMuxDefault(UDPMuxParams{UDPConn: conn})
+	if (mux.addrPortConn != nil) != ap {
+		panic("verif writeabort: unexpected AddrPort capability of the mux")
+	}
+	r := &vWaRun{rec: rec, sock: sock, mux: mux, dst: &net.UDPAddr{IP: net.IPv4(10, 0, 0, 2), Port: 6000}, ap: ap}
+	r.dstAP = r.dst.AddrPort()
 	for _, u := range []string{"userA", "userB"} {
 		h, err := mux.GetConn(u, sock.LocalAddr())
 		if err != nil {
@@ -286,21 +340,59 @@ func vWaClass(err error) string {
 	}
 }
 
-// write performs one write call and records its call/return. via < 0: mux.writeToContext(ctx);
-// via >= 0: through the handle of user `via` (background context, the path candidates use).
+// apWriter: the AddrPort entry point of user `via`: the handle itself when the mux hands out
+// *sharedAddrPortConn (AddrPort-capable socket), else the *udpMuxedConn below the plain handle (its
+// WriteToAddrPort then takes the defensive fallback of writeToUDPAddrPort into writeTo).
+func (r *vWaRun) apWriter(via int) AddrPortReaderWriter {
+	if via < 0 {
+		return nil
+	}
+	if h, ok := r.handles[via].(AddrPortReaderWriter); ok {
+		return h
+	}
+	if sp, ok := r.handles[via].(*sharedPacketConn); ok {
+		if u, ok := sp.underlying.(AddrPortReaderWriter); ok {
+			return u
+		}
+	}
+	return nil
+}
+
+// write performs one write call over the net.Addr path and records its call/return. via < 0:
+// mux.writeToContext(ctx); via >= 0: through the handle of user `via` (background context, the path
+// candidates use).
 func (r *vWaRun) write(id int, ctx context.Context, cancellable bool, mode byte, via int, probe bool) error {
+	return r.writeP(id, ctx, cancellable, mode, via, probe, vWaPathAddr)
+}
+
+// writeP: path = vWaPathAP: the netip.AddrPort path (no context: via < 0 calls mux.writeToUDPAddrPort).
+func (r *vWaRun) writeP(id int, ctx context.Context, cancellable bool, mode byte, via int, probe bool, path int) error {
+	if path == vWaPathAP && cancellable {
+		panic("verif writeabort: the AddrPort path has no context variant")
+	}
 	switch {
+	case probe && path == vWaPathAP:
+		r.rec.add(fmt.Sprintf("pc:%d:a", id))
 	case probe:
 		r.rec.add(fmt.Sprintf("pc:%d", id))
+	case path == vWaPathAP:
+		r.rec.add(fmt.Sprintf("wc:%d:a", id))
 	case cancellable:
 		r.rec.add(fmt.Sprintf("wc:%d:c", id))
 	default:
 		r.rec.add(fmt.Sprintf("wc:%d:b", id))
 	}
 	var err error
-	if via >= 0 {
+	switch {
+	case path == vWaPathAP:
+		if w := r.apWriter(via); w != nil {
+			_, err = w.WriteToAddrPort([]byte{byte(id), mode}, r.dstAP)
+		} else {
+			_, err = r.mux.writeToUDPAddrPort([]byte{byte(id), mode}, r.dstAP)
+		}
+	case via >= 0:
 		_, err = r.handles[via].WriteTo([]byte{byte(id), mode}, r.dst)
-	} else {
+	default:
 		_, err = r.mux.writeToContext(ctx, []byte{byte(id), mode}, r.dst)
 	}
 	if probe {
@@ -394,20 +486,29 @@ func (r *vWaRun) observe() {
 	r.rec.mu.Unlock()
 }
 
-// probe: a write by another user, issued alone at quiescence on a socket that does not block it.
-// A probe that does not return (a writer spinning forever in startWriteContext) is recorded as `stuck`.
+// probe: "later writes by ANY user succeed": one write by user B over the net.Addr path and one by user A
+// over the AddrPort path (ids id and id+1), each issued alone at quiescence on a socket that does not
+// block it. A probe that does not return (a writer spinning forever in startWriteContext) is recorded
+// as `stuck`.
 func (r *vWaRun) probe(id int) {
+	if r.probeVia(id, 1, vWaPathAddr) {
+		r.probeVia(id+1, 0, vWaPathAP)
+	}
+}
+
+func (r *vWaRun) probeVia(id int, via int, path int) bool {
 	done := make(chan struct{})
 	go func() {
 		defer close(done)
-		_ = r.write(id, context.Background(), false, 0, 1, true)
+		_ = r.writeP(id, context.Background(), false, 0, via, true, path)
 	}()
 	if !vWaWaitCh(done, vWaPatience(3*time.Second)) {
 		r.rec.add("stuck")
 		vWaStuck++
-		return
+		return false
 	}
 	r.observe()
+	return true
 }
 
 // vWaStuck counts histories that did not become quiescent; after the first one the harness stops
@@ -455,20 +556,24 @@ func vWaWaitCh(ch chan struct{}, d time.Duration) bool {
 // ---------------------------------------------------------------------------------------------
 
 func (r *vWaRun) goWrite(id int, ctx context.Context, cancellable bool, mode byte, via int) chan struct{} {
+	return r.goWriteP(id, ctx, cancellable, mode, via, vWaPathAddr)
+}
+
+func (r *vWaRun) goWriteP(id int, ctx context.Context, cancellable bool, mode byte, via int, path int) chan struct{} {
 	done := make(chan struct{})
 	r.wg.Add(1)
 	go func() {
 		defer r.wg.Done()
 		defer close(done)
-		_ = r.write(id, ctx, cancellable, mode, via, false)
+		_ = r.writeP(id, ctx, cancellable, mode, via, false, path)
 	}()
 	return done
 }
 
 // S1: one blocked writer, one abort: the writer is interrupted, clears the deadline; probe succeeds.
-func vWaSchedAbortOne(via int) string {
-	r := newVWaRun(nil)
-	d := r.goWrite(0, context.Background(), false, 1, via)
+func vWaSchedAbortOne(via int, ap bool, path int) string {
+	r := newVWaRunKind(nil, ap)
+	d := r.goWriteP(0, context.Background(), false, 1, via, path)
 	r.waitPending(0)
 	_ = r.abort(0, via)
 	vWaWaitCh(d, vWaPatience(2*time.Second))
@@ -478,11 +583,16 @@ func vWaSchedAbortOne(via int) string {
 	return r.finish()
 }
 
-// S2: k blocked writers of both users, one abort through a handle.
-func vWaSchedAbortMany(k int) string {
-	r := newVWaRun(nil)
+// S2: k blocked writers of both users, one abort through a handle. mix: writers 2,3 (6,7, ...) use the
+// AddrPort path, so with k = 4 every (user, path) combination is in flight.
+func vWaSchedAbortMany(k int, ap bool, mix bool) string {
+	r := newVWaRunKind(nil, ap)
 	for i := 0; i < k; i++ {
-		r.goWrite(i, context.Background(), false, 1, i%2)
+		path := vWaPathAddr
+		if mix && (i/2)%2 == 1 {
+			path = vWaPathAP
+		}
+		r.goWriteP(i, context.Background(), false, 1, i%2, path)
 		r.waitPending(i)
 	}
 	_ = r.abort(0, 0)
@@ -504,12 +614,12 @@ func vWaSchedAbortIdle() string {
 }
 
 // S4: the arming fails while the writer stays blocked: bits cleared, writer later completes normally.
-func vWaSchedFailSimple() string {
-	r := newVWaRun(map[int]bool{0: true})
-	d := r.goWrite(0, context.Background(), false, 1, -1)
+func vWaSchedFailSimple(ap bool, path int) string {
+	r := newVWaRunKind(map[int]bool{0: true}, ap)
+	d := r.goWriteP(0, context.Background(), false, 1, -1, path)
 	r.waitPending(0)
 	_ = r.abort(0, -1)
-	r.sock.release(0)
+	r.sock.release(0, false)
 	vWaWaitCh(d, vWaPatience(2*time.Second))
 	if r.quiesce(5 * time.Second) {
 		r.probe(1)
@@ -519,13 +629,13 @@ func vWaSchedFailSimple() string {
 
 // S5: context of a blocked write cancelled: the helper aborts it; a write of the other user that is in
 // flight is interrupted as well; afterwards the socket is usable.
-func vWaSchedCancel(withSibling bool) string {
-	r := newVWaRun(nil)
+func vWaSchedCancel(withSibling bool, ap bool, siblingPath int) string {
+	r := newVWaRunKind(nil, ap)
 	ctx, cancel := context.WithCancel(context.Background())
 	d0 := r.goWrite(0, ctx, true, 1, -1)
 	r.waitPending(0)
 	if withSibling {
-		r.goWrite(1, context.Background(), false, 1, 1)
+		r.goWriteP(1, context.Background(), false, 1, 1, siblingPath)
 		r.waitPending(1)
 	}
 	r.cancel(0, cancel)
@@ -550,23 +660,75 @@ func vWaSchedCancelBefore() string {
 }
 
 // S7: a second writer spins in startWriteContext while the deadline is armed, then enters.
-func vWaSchedSpinner() string {
-	r := newVWaRun(nil)
+func vWaSchedSpinner(ap bool, path0, path1 int) string {
+	r := newVWaRunKind(nil, ap)
 	var d1 chan struct{}
 	r.sock.onWrite[0] = func() {
 		_ = r.abort(0, -1) // blocked + deadline armed while writer 0 is inside the socket write
-		d1 = r.goWrite(1, context.Background(), false, 0, 1)
+		d1 = r.goWriteP(1, context.Background(), false, 0, 1, path1)
 		for i := 0; i < 200; i++ { // writer 1 spins in startWriteContext
 			runtime.Gosched()
 		}
 	}
-	d0 := r.goWrite(0, context.Background(), false, 2, 0)
+	d0 := r.goWriteP(0, context.Background(), false, 2, 0, path0)
 	vWaWaitCh(d0, vWaPatience(2*time.Second))
 	if d1 != nil {
 		vWaWaitCh(d1, vWaPatience(2*time.Second))
 	}
 	if r.quiesce(5 * time.Second) {
 		r.probe(2)
+	}
+	return r.finish()
+}
+
+// S8: a write of user A FAILS in the socket (an error that is not the deadline's); it has returned, so
+// nothing is in flight: an abort by user B must do nothing (withLater: afterwards B has a blocked write
+// on the other path which A aborts - the ordinary protocol must still work); then everybody writes.
+func vWaSchedWriteFails(ap bool, path int, withLater bool) string {
+	r := newVWaRunKind(nil, ap)
+	d := r.goWriteP(0, context.Background(), false, 3, 0, path)
+	vWaWaitCh(d, vWaPatience(2*time.Second))
+	_ = r.abort(0, 1)
+	if withLater {
+		d1 := r.goWriteP(1, context.Background(), false, 1, 1, 1-path)
+		if r.waitPending(1) {
+			_ = r.abort(1, 0)
+		}
+		vWaWaitCh(d1, vWaPatience(2*time.Second))
+	}
+	if r.quiesce(5 * time.Second) {
+		r.probe(2)
+	}
+	return r.finish()
+}
+
+// S9: user B is blocked in the socket (net.Addr path); a write of user A fails at once (path given);
+// A aborts: B is the only writer in flight, is interrupted and must clear the deadline.
+func vWaSchedFailBesideBlocked(ap bool, path int) string {
+	r := newVWaRunKind(nil, ap)
+	d0 := r.goWriteP(0, context.Background(), false, 1, 1, vWaPathAddr)
+	r.waitPending(0)
+	d1 := r.goWriteP(1, context.Background(), false, 3, 0, path)
+	vWaWaitCh(d1, vWaPatience(2*time.Second))
+	_ = r.abort(0, 0)
+	vWaWaitCh(d0, vWaPatience(2*time.Second))
+	if r.quiesce(5 * time.Second) {
+		r.probe(2)
+	}
+	return r.finish()
+}
+
+// S10: a blocked write completes with an error (not the deadline's) on its own; aborts afterwards are idle.
+func vWaSchedBlockedThenError(ap bool, path int) string {
+	r := newVWaRunKind(nil, ap)
+	d := r.goWriteP(0, context.Background(), false, 1, 0, path)
+	r.waitPending(0)
+	r.sock.release(0, true)
+	vWaWaitCh(d, vWaPatience(2*time.Second))
+	_ = r.abort(0, 1)
+	_ = r.abort(1, -1)
+	if r.quiesce(5 * time.Second) {
+		r.probe(1)
 	}
 	return r.finish()
 }
@@ -591,7 +753,7 @@ func vWaSchedF11() (string, bool) {
 	unpark := func() { unparkOnce.Do(func() { close(parkY) }) }
 	s.onNow = func(k int, failed bool) {
 		if k == 0 && failed {
-			s.release(0) // X's write completes for an unrelated reason
+			s.release(0, false) // X's write completes for an unrelated reason
 			for i := 0; i < 2000000 && m.writeState.Load() != udpMuxWriteBlockedBit; i++ {
 				runtime.Gosched() // until X has decremented and waits for the deadline bit
 			}
@@ -692,7 +854,11 @@ func vWaRandom(rnd *vRand, o *vOut) string {
 	} else {
 		o.stat("writeabort.random.no_failure_script")
 	}
-	r := newVWaRun(fail)
+	ap := rnd.chance(2, 3) // the shared socket is AddrPort-capable: both write paths are mixed in the run
+	if ap {
+		o.stat("writeabort.random.addrport_capable_socket")
+	}
+	r := newVWaRunKind(fail, ap)
 	r.sock.rnd = rnd.fork()
 	// waitPendingN: an aborter/canceller may wait (bounded) until `need` writes are blocked in the socket
 	waitPendingN := func(need int, spins int) {
@@ -707,8 +873,9 @@ func vWaRandom(rnd *vRand, o *vOut) string {
 		}
 	}
 	type rel struct {
-		d  vWaDelay
-		id int
+		d    vWaDelay
+		id   int
+		fail bool // the blocked write completes with an error that is not the deadline's
 	}
 	var rels []rel
 	for i := 0; i < nW; i++ {
@@ -722,6 +889,16 @@ func vWaRandom(rnd *vRand, o *vOut) string {
 		via := -1
 		if !cancellable && rnd.chance(1, 2) {
 			via = rnd.intn(2)
+		}
+		path := vWaPathAddr
+		if !cancellable && rnd.chance(1, 2) { // on a plain socket: the fallback of writeToUDPAddrPort into writeTo
+			path = vWaPathAP
+			if rnd.chance(3, 4) {
+				via = rnd.intn(2)
+			}
+		}
+		if mode == 0 && rnd.chance(1, 3) {
+			mode = 3 // the socket write fails at once
 		}
 		ctx := context.Background()
 		var cancel context.CancelFunc
@@ -743,14 +920,14 @@ func vWaRandom(rnd *vRand, o *vOut) string {
 			}()
 		}
 		if mode == 1 && rnd.chance(1, 2) {
-			rels = append(rels, rel{vWaDrawDelay(rnd), i})
+			rels = append(rels, rel{vWaDrawDelay(rnd), i, rnd.chance(1, 3)})
 		}
 		id := i
 		r.wg.Add(1)
 		go func() {
 			defer r.wg.Done()
 			d.wait()
-			_ = r.write(id, ctx, cancellable, mode, via, false)
+			_ = r.writeP(id, ctx, cancellable, mode, via, false, path)
 		}()
 	}
 	for j := 0; j < nA; j++ {
@@ -774,7 +951,7 @@ func vWaRandom(rnd *vRand, o *vOut) string {
 		defer r.wg.Done()
 		for _, x := range rels {
 			x.d.wait()
-			r.sock.release(x.id)
+			r.sock.release(x.id, x.fail)
 		}
 	}()
 	if r.quiesceGrace(10*time.Second, time.Duration(1+rnd.intn(3))*time.Millisecond) {
@@ -825,7 +1002,36 @@ func vWaStatHist(o *vOut, h string) {
 	}
 	// shape of the interleaving, from the recorded events
 	inflight, maxIn, armed, epochs, abortWith2, callWhileArmed, zeroCalls := 0, 0, false, 0, false, false, 0
+	apWriter, paths := map[string]bool{}, map[bool]bool{}
+	apFailed, addrFailed, apFailThenAbort, apFailThenArming, apFailWhileBlockedBit := false, false, false, false, false
 	for _, t := range strings.Split(h, " ")[2:] {
+		f := strings.Split(t, ":")
+		switch {
+		case f[0] == "wc" && len(f) == 3:
+			paths[f[2] == "a"] = true
+			if f[2] == "a" {
+				apWriter[f[1]] = true
+			}
+		case f[0] == "sa":
+			o.stat("writeabort.ev.socket_WriteToAddrPort")
+		case f[0] == "sc":
+			o.stat("writeabort.ev.socket_WriteTo")
+		case f[0] == "sr" && len(f) == 3 && f[2] == "err":
+			o.stat("writeabort.ev.socket_write_error")
+		case f[0] == "wr" && len(f) == 3 && f[2] != "ok":
+			if apWriter[f[1]] {
+				apFailed = true
+				if armed {
+					apFailWhileBlockedBit = true
+				}
+			} else {
+				addrFailed = true
+			}
+		case f[0] == "ac" && apFailed:
+			apFailThenAbort = true
+		case t == "sd:now:ok" && apFailed:
+			apFailThenArming = true
+		}
 		switch {
 		case strings.HasPrefix(t, "wc:"):
 			inflight++
@@ -861,22 +1067,67 @@ func vWaStatHist(o *vOut, h string) {
 	if zeroCalls > epochs {
 		o.stat("writeabort.shape.more_clears_than_armings(stale waiter)")
 	}
+	if paths[true] && paths[false] {
+		o.stat("writeabort.shape.both_write_paths_in_one_run")
+	}
+	if apFailed {
+		o.stat("writeabort.shape.addrport_write_returned_error")
+	}
+	if addrFailed {
+		o.stat("writeabort.shape.netaddr_write_returned_error")
+	}
+	if apFailThenAbort {
+		o.stat("writeabort.shape.abort_called_after_failed_addrport_write")
+	}
+	if apFailThenArming {
+		o.stat("writeabort.shape.deadline_armed_after_failed_addrport_write")
+	}
+	if apFailWhileBlockedBit {
+		o.stat("writeabort.shape.addrport_write_failed_while_deadline_armed")
+	}
 }
 
 func vWaGen(o *vOut, r *vRand, thorough bool, args []string, emit func(op string)) {
 	emit("writeabort consts")
 	put := func(h string) { vWaStatHist(o, h); emit(h) }
 	// deterministic schedules first
-	put(vWaSchedAbortIdle())
-	put(vWaSchedAbortOne(-1))
-	put(vWaSchedAbortOne(0))
-	put(vWaSchedAbortMany(2))
-	put(vWaSchedAbortMany(4))
-	put(vWaSchedFailSimple())
-	put(vWaSchedCancel(false))
-	put(vWaSchedCancel(true))
-	put(vWaSchedCancelBefore())
-	put(vWaSchedSpinner())
+	const pA, pP = vWaPathAddr, vWaPathAP
+	// after three histories that did not become quiescent nothing more is run (leftover goroutines spin)
+	sched := func(f func() string) {
+		if vWaStuck < 3 {
+			put(f())
+		}
+	}
+	sched(func() string { return vWaSchedAbortIdle() })
+	sched(func() string { return vWaSchedAbortOne(-1, false, pA) })
+	sched(func() string { return vWaSchedAbortOne(0, false, pA) })
+	sched(func() string { return vWaSchedAbortMany(2, false, false) })
+	sched(func() string { return vWaSchedAbortMany(4, false, false) })
+	sched(func() string { return vWaSchedFailSimple(false, pA) })
+	sched(func() string { return vWaSchedCancel(false, false, pA) })
+	sched(func() string { return vWaSchedCancel(true, false, pA) })
+	sched(func() string { return vWaSchedCancelBefore() })
+	sched(func() string { return vWaSchedSpinner(false, pA, pA) })
+	// the same protocol over the netip.AddrPort write path (AddrPort-capable socket), both paths mixed;
+	// the socket write fails with an error / the deadline / completes - on either path
+	sched(func() string { return vWaSchedWriteFails(true, pP, false) })
+	sched(func() string { return vWaSchedWriteFails(true, pP, true) })
+	sched(func() string { return vWaSchedWriteFails(true, pA, true) })
+	sched(func() string { return vWaSchedWriteFails(false, pA, false) })
+	sched(func() string { return vWaSchedWriteFails(false, pP, true) }) // plain socket: writeToUDPAddrPort falls back to writeTo
+	sched(func() string { return vWaSchedFailBesideBlocked(true, pP) })
+	sched(func() string { return vWaSchedFailBesideBlocked(true, pA) })
+	sched(func() string { return vWaSchedBlockedThenError(true, pP) })
+	sched(func() string { return vWaSchedBlockedThenError(false, pA) })
+	sched(func() string { return vWaSchedAbortOne(0, true, pP) })
+	sched(func() string { return vWaSchedAbortOne(-1, true, pP) })
+	sched(func() string { return vWaSchedAbortOne(1, true, pA) })
+	sched(func() string { return vWaSchedAbortOne(0, false, pP) })
+	sched(func() string { return vWaSchedAbortMany(4, true, true) })
+	sched(func() string { return vWaSchedFailSimple(true, pP) })
+	sched(func() string { return vWaSchedCancel(true, true, pP) })
+	sched(func() string { return vWaSchedSpinner(true, pP, pA) })
+	sched(func() string { return vWaSchedSpinner(true, pA, pP) })
 	// F11: retried until the schedule is reached (it cannot be on a repaired tree)
 	var h string
 	reached := false
@@ -887,7 +1138,9 @@ func vWaGen(o *vOut, r *vRand, thorough bool, args []string, emit func(op string
 	if reached {
 		o.stat("writeabort.f11.reached")
 	}
-	put(h)
+	if h != "" {
+		put(h)
+	}
 	n := 1500
 	if thorough {
 		n = 60000
